@@ -17,8 +17,11 @@ impl Checker for C02 {
         if !v.is_empty() {
             return v;
         }
+        v.extend(o::o_cursor("C02", ops, ex));
         v.extend(o::o_tree_suffix("C02", ex, false));
         v.extend(o::o_extents("C02", ex));
+        // allocation invariants (a file's clusters are marked used, chains do not cross, no cluster is lost)
+        v.extend(o::o_invariants("C02", ops, ex).into_iter().filter(|(s, _)| s.contains("/I1/") || s.contains("/I2/")));
         v
     }
 }
@@ -55,7 +58,7 @@ pub fn handle_ops(h: u8, name: &str, cs: u32, full: bool) -> Vec<Op> {
         a.push(Op::Seek { h, pos: SeekSpec::Start(o) });
     }
     if full {
-        for d in [1, -1, csi, -csi] {
+        for d in [1, -1, csi, -csi, 1 << 31, -(1 << 31), 1 << 32, -(1 << 32), (1 << 32) + 1, i64::MIN, i64::MAX] {
             a.push(Op::Seek { h, pos: SeekSpec::Current(d) });
         }
         for d in [0, -1, -csi, 1, -(1 << 40)] {
@@ -72,6 +75,9 @@ pub fn handle_ops(h: u8, name: &str, cs: u32, full: bool) -> Vec<Op> {
     a.push(Op::Flush { h });
     a.push(Op::DropFile { h });
     a.push(Op::OpenFile { base: DirRef::Root, path: name.into(), keep: Some(h) });
+    if full {
+        a.push(Op::Remount);
+    }
     a
 }
 
